@@ -88,6 +88,12 @@ def rule_tetrahedron_table(ck, repo):
     ck.decide(any(src(d.value) == f'self.stereogenic_tetrahedrons[{params[1]}]' for d in sdefs), R2, 'stored-order', None,
               'stored order no longer read from stereogenic_tetrahedrons[n]', **loc)
     ext = [d for d in sdefs if isinstance(d.value, ast.Tuple)]
+    if not ext:
+        # the stored order (three heavy neighbours) is never completed by the hydrogen: a four-atom neighbour list is then cut down to three, which is an
+        # odd permutation whenever the hydrogen stood first or third -- the sign must flip there and does not
+        ck.bad(R2, 'hydrogen-last', f'{f.qualname} no longer appends the (explicit) hydrogen as the LAST element of the stored neighbour order before indexing the table: '
+                                    f'dropping it from the given list instead changes the parity for two of its four positions', **loc)
+        return
     if len(ext) != 1:
         raise AnalysisError(f'{f.fq}: expected one extension of the stored order by a hydrogen, found {len(ext)}')
     elts = ext[0].value.elts
